@@ -51,11 +51,32 @@ pub const EXTRA_FENS: &[&str] = &[
     "r3k2r/8/8/8/8/8/8/R3K2R b KQkq - 0 0",
     // knights that can shuffle: repetition / transposition rich
     "1n2k3/8/8/8/8/8/8/1N2K3 w - - 0 1",
+    "1n2k3/8/8/8/8/8/8/1N2K3 w - - 92 70",
+    "1n2k3/8/8/8/8/8/8/1N2K3 b - - 97 70",
     // rooks that can return home: rights lost although the placement recurs
     "r3k2r/p6p/8/8/8/8/P6P/R3K2R w KQkq - 0 1",
     // double steps everywhere: ep markers with and without a capturer
     "4k3/pppppppp/8/PPPPPPPP/8/8/8/4K3 b - - 0 1",
     "4k3/8/8/8/pppppppp/8/PPPPPPPP/4K3 w - - 0 1",
+];
+
+/// crowded, fragmented placements (longest possible FEN texts); validated at start-up against the
+/// reference's playability rules
+pub const LONG_PLACEMENTS: &[&str] = &[
+    "r1b1k2r/p1p1p1p1/1p1p1p1p/n1n1q1b1/1P1P1P1P/N1N1Q1B1/P1P1P1P1/R1B1K2R",
+    "r3k2r/1p1p1p1p/p1p1p1p1/1n1b1q1n/N1B1Q1N1/1P1P1P1P/P1P1P1P1/R3K2R",
+];
+
+/// legally reachable positions with the maximum number of one officer type (promotions)
+pub const PROMOTED_MATERIAL: &[&str] = &[
+    "NNNNNNNN/8/8/8/8/1k6/6Q1/RNB1KBNR w KQ - 1 62",
+    "BBBBBBBB/8/8/8/8/1k6/6Q1/RNB1KBNR b KQ - 1 62",
+    "RRRRRRRR/8/8/8/8/1k6/8/RNBQKBNR b KQ - 1 62",
+    "QQQQQQQQ/8/8/8/8/1k6/8/RNBQKBNR b KQ - 1 62",
+    "rnbqkbnr/8/1K6/8/8/8/8/nnnnnnnn w kq - 1 62",
+    "rnbqkbnr/8/1K6/8/8/8/8/rrrrrrrr w kq - 1 62",
+    "rnbqkbnr/8/1K6/8/8/8/8/bbbbbbbb w kq - 1 62",
+    "rnbqkbnr/8/1K6/8/8/8/8/qqqqqqqq w kq - 1 62",
 ];
 
 #[derive(Clone, Debug)]
@@ -97,6 +118,16 @@ pub fn load_scenarios() -> Vec<Scenario> {
 
 /// The scenario expectations are data about *chess*; the reference must satisfy every one of
 /// them, otherwise the reference (or the catalogue) is wrong and no verdict may be issued.
+/// the hand-written must-accept FENs are data about chess too: the reference must find them playable
+pub fn validate_fixed_fens() {
+    for f in PROMOTED_MATERIAL.iter().map(|s| s.to_string()).chain(LONG_PLACEMENTS.iter().flat_map(|p| ["w KQkq - 9999 9999", "b KQkq - 103 60", "w - - 0 1", "b - - 0 1"].iter().map(move |t| format!("{p} {t}")))) {
+        let p = Position::from_fen(&f).unwrap_or_else(|e| machinery_failure(&format!("fixed FEN {f}: {e}")));
+        if let Err(e) = p.playable() {
+            machinery_failure(&format!("fixed FEN {f} is not playable according to the reference: {e}"));
+        }
+    }
+}
+
 pub fn validate_scenarios_against_reference(sc: &[Scenario]) {
     for s in sc {
         let p = Position::from_fen(&s.fen).unwrap_or_else(|e| machinery_failure(&format!("{}: {e}", s.id)));
